@@ -11,6 +11,16 @@ const (
 	// = 395 + 2 + 5 + 32 + 1 + 64 = 499 bytes minimum
 	LEASESET2_MIN_SIZE = 499
 
+	// LEASESET2_ABSOLUTE_MIN_SIZE is the size below which no well-formed LeaseSet2
+	// exists, whatever its key and signature types: LeaseSet2Header (395 bytes) +
+	// empty options (2 bytes) + key count (1 byte) + one key header (4 bytes, the
+	// key itself may be shorter than X25519's 32 bytes) + lease count (1 byte) +
+	// shortest signature (40 bytes, DSA_SHA1) = 443 bytes. The parser uses this
+	// bound for its up-front length check; LEASESET2_MIN_SIZE describes the common
+	// X25519/EdDSA case and would reject e.g. a DSA-signed LeaseSet2 without leases
+	// (475 bytes). Every field is length-checked again while parsing.
+	LEASESET2_ABSOLUTE_MIN_SIZE = 443
+
 	// LEASESET2_HEADER_MIN_SIZE is the minimum size of LeaseSet2Header without offline signature.
 	// Destination (387 bytes) + published (4 bytes) + expires (2 bytes) + flags (2 bytes)
 	// = 395 bytes
